@@ -169,3 +169,13 @@ claim('C11',
       'the line grammar is exercised by literal files, not a symbolic grammar.',
       'symbolic execution of the real writer and parser with decimal tokens + SMT (z3 LRA)',
       'DESIGN.md section 5 C11')
+claim('C10',
+      'Bounded symbolic check of the real DS9 parser against reference semantics attached to a grammar of the supported subset: '
+      'generated files (optional unsupported frame, optional global line, noise, one region line in one of 8 frames x 10 shape forms x '
+      'separator style x case x sign x property list, then a probe line that observes the surviving parser state); pixel coordinates and '
+      'all sizes are symbolic numerals (any magnitude), sky positions in six concrete notations; plus literal files for the state rules '
+      '(no frame, frame reset, composite, semicolons, sign persistence, text comments).',
+      'Sexagesimal arithmetic is astropy (the check fixes the unit handed to it); longer files by induction over the observed state; '
+      'one defect repaired (ellipse/box without angle).',
+      'symbolic execution of the real parser with symbolic numerals + SMT (z3 LRA), grammar-directed program enumeration',
+      'DESIGN.md section 5 C10')
